@@ -54,6 +54,9 @@ def install(reg):
             return I.reg.deep_copy(I, b.meta["bytes_of"], {})
         if isinstance(b, Sym) and "of" in b.info:
             return I.reg.deep_copy(I, b.info["of"], {})
+        if isinstance(b, Sym) and b.info.get("hdf5_container"):
+            _a(I, "pickle.loads of the raw bytes of an HDF5 container raises UnpicklingError (they do not start with a pickle opcode)")
+            raise RaiseSig("UnpicklingError", n)
         raise Unsupported("pickle.loads of unknown bytes")
 
     reg.handlers["pickle.loads"] = pickle_loads
@@ -281,7 +284,7 @@ class RestoreFromCheckpoint(RestoreFromCheckpointModel):
            "bytes, file path), restores population values, temperature, iteration, history, generator state and adaptive minimum step")
 
     def shapes(self):
-        return [{"route": r} for r in ("dict", "bytes", "path")]
+        return [{"route": r} for r in ("dict", "bytes", "path", "PATH")]       # PATH: a file name with an upper-case extension (the writer accepts it)
 
     def setup(self, I, shape):
         p = I.path
@@ -318,7 +321,8 @@ class RestoreFromCheckpoint(RestoreFromCheckpointModel):
             blob = I.reg.handlers["pickle.dumps"](I, [state], {}, None)
             ck.f["members"].d["state"] = Obj("H5Dataset", {"shape0": IV(blob.n), "data": blob, "name": Str("state"), "resizable": B(True)})
             root.f["members"].d["checkpoint"] = ck
-            src = Str("run.h5")
+            src = Str("run.h5" if route == "path" else "RUN.H5")
+            fs(I)[skey(src)] = root           # the file exists with these contents whichever way it is opened
             p.ghost["file_root"] = root
             orig_open = I.reg.handlers["AspireFile.__new__"]
 
@@ -341,7 +345,7 @@ class RestoreFromCheckpoint(RestoreFromCheckpointModel):
         route = g["route"]
         tag = f"[{route}]"
         if not (isinstance(r, Tup) and len(r.items) == 3):
-            p.prove(z3.BoolVal(False), f"{q}:C11:returns (samples, beta, iteration) {tag}")
+            p.prove(z3.BoolVal(False), f"{q}:C11:C12:returns (samples, beta, iteration) {tag}")
             return
         smp, beta, it = r.items
         for k in FIELDS:
@@ -385,4 +389,4 @@ class RestoreFromCheckpoint(RestoreFromCheckpointModel):
     def post_raise(self, I, pre, sig):
         if "restore_open" in I.path.ghost:
             I.reg.handlers["AspireFile.__new__"] = I.path.ghost["restore_open"]
-        I.path.prove(z3.BoolVal(False), f"{self.qual}:C11:restoring a well-formed checkpoint does not raise [{pre.ghost['route']}: {sig.exc}]", assume_after=False)
+        I.path.prove(z3.BoolVal(False), f"{self.qual}:C11:C12:restoring a well-formed checkpoint does not raise (what the run left behind is loadable) [{pre.ghost['route']}: {sig.exc}]", assume_after=False)
